@@ -528,6 +528,40 @@ def rule_a5(F):
     return r
 
 
+def rule_a6(F):
+    """Type-erased storage holds the boundary form: wherever the typed API (List<T>, Constant::new) erases or restores the type of a
+    value that generated code also reads or writes, the concrete side of the cast is <T as Value>::Transformed, never T itself
+    (for Option/Result/Verdict and everything that contains them the two differ)."""
+    r = RuleResult("C05.A6", "type erasure only on the boundary representation: casts to/from `()` and raw slices in List<T> and the value stored by Constant::new are T::Transformed", floor=8)
+    for p in sorted(F.paths()):
+        if not ("value::list::boundary::" in p or p.endswith("runtime::items::Constant::new")):
+            continue
+        b = F.body(p)
+        if b is None or not b.mir or "::tests::" in p:
+            continue
+        short = p.split("value::list::boundary::")[-1] if "boundary::" in p else "Constant::new"
+        n = 0
+        for bi, t in mir.calls(b):
+            d = mir.callee_def(t)
+            g = [x for x in (t["f"].get("gargs") or []) if not x.startswith("'")]
+            what = None
+            if d.endswith("NonNull::<T>::cast") and len(g) == 2 and "()" in g:
+                what = ("cast", g[0] if g[1] == "()" else g[1])
+            elif d.endswith("slice::from_raw_parts") and g:
+                what = ("from_raw_parts", g[0])
+            elif d.endswith("ConstantValue::new") and g:
+                what = ("ConstantValue::new", g[0])
+            if what is None:
+                continue
+            n += 1
+            ok = "Transformed" in what[1]
+            r.inst("%s %s #%d" % (short, what[0], n), {"fn": p, "line": t["line"], "operation": what[0], "concrete_type": what[1]})
+            if not ok:
+                r.bad(p, "%s of %s" % what, relfile(b.file), t["line"],
+                      "%s erases / restores the type `%s`: generated code and the list's vtable work on <T as Value>::Transformed, so for T = Option<_>, Result<_, _>, Verdict<_, _> (and anything containing them) a value in Rust's own layout is compared, copied or read as if it had Roto's layout" % (what[0], what[1]))
+    return r
+
+
 def rules(ctx):
     F = ctx["F"]
-    return [rule_a1(F), rule_a2(F), rule_a3(F), rule_a4(F), rule_a5(F)]
+    return [rule_a1(F), rule_a2(F), rule_a3(F), rule_a4(F), rule_a5(F), rule_a6(F)]
